@@ -397,8 +397,8 @@ MISSING for the full statement:
 3. weak diagonal dominance of the coarse matrices (Jacobi, SPAI-0) is a hypothesis (`hQ`), not derived from the fine
    matrix being an M-matrix;
 4. ILU-type and Chebyshev smoothers (no smoothing inequality in C02b);
-5. the skyline instance of `hdirect` is `Bridge.skyline_directExact` (`Proofs/BridgeSkyline.lean`), for permutation
-   orderings and non-empty matrices; it lives in a module of its own because the import closures of C16 and C03 clash;
+5. the skyline instance of `hdirect` is `Bridge.skyline_directExact`; it is plugged in by `C02d.model_amg_skyline_spd_contracting`
+   (`Properties/C02d.lean`), for every permutation ordering (the Cuthill–McKee ordering itself is checked, not modelled);
 6. IEEE rounding. -/
 theorem model_amg_spd_contracting_partial (r : RealSmoother K) (hr : r.NormOK) (hp : r.proved.ParamOK)
     (norm : K → K) (aprm : AggrParams K) (hbs : aprm.blockSize = 1) (hma : aprm.minAggregate ≤ 1) (nt : Nat)
